@@ -64,12 +64,6 @@ FullOf(ev) == [ms |-> ev.ms, live |-> LiveSet(ev), es |-> ev.es,
                clamped |-> (ev.hto # Unset /\ (ev.hto >= 999999999 \/ ev.hto <= 0 - 999999999))
                            \/ (ev.bto # Unset /\ (ev.bto >= 999999999 \/ ev.bto <= 0 - 999999999))]
 
-(* charge counter (beyond the listed properties, "XGLUE"): a Charge frame increments it and (re)starts a 1 s   *)
-(* timeout; the tick that finds the timeout expired - or ends the session for inactivity - resets it to 0     *)
-CtcDue(f, nows) == f.cdl >= 0 /\ nows >= f.cdl
-CtcAfterTick(c, f, nows, ended) == IF ended \/ CtcDue(f, nows) THEN 0 ELSE c
-CdlAfterTick(f, nows, ended) == IF ended \/ CtcDue(f, nows) THEN 0 - 1 ELSE f.cdl
-
 (* relative-clock mapping onto the state of TickPacing *)
 ClsHto(abs, now) == IF abs < 0 THEN "unset" ELSE IF abs <= now THEN "due" ELSE IF abs - now < 1000 THEN "soon" ELSE "late"
 ClsBto(abs, now) == IF abs < 0 THEN "unset" ELSE IF abs <= now THEN "due" ELSE "pending"
@@ -86,41 +80,6 @@ TickRefines(ev) ==
   IN /\ Len(ev.hellos) <= 1
      /\ \E r \in TP!TickStep(pre) : r.post = post /\ r.sent = (Len(ev.hellos) = 1)
 
-(* ---------------------------------------------------------------- XTICK: the tick, value for value          *)
-(* Beyond the listed properties: automata_tick as a deterministic function of the state the previous event     *)
-(* logged and of the clock - inactivity timer, charge timer, 60 s sweep, table-status update of the           *)
-(* enumeration engine, Hello deadline (send / suppress to last transmit + 1 s / re-arm at                      *)
-(* max(load interval, 1 s)), block end (count formula, r cleared, next block in 300 ms, Hello deadline         *)
-(* re-chosen from the load interval).  Every field the tick leaves behind must equal the model's.             *)
-BlockMs == 300
-MinGapMs == 1000
-LoadInterval(ni) == Max(HelloIntervalMin(ni), 6)            \* at least one frame time (20/3 ms, truncated)
-TickExact(f, now) ==
-  LET nows == now \div 1000
-      fire == f.inact # 0 /\ nows >= f.inact
-      ctc1 == IF fire \/ CtcDue(f, nows) THEN 0 ELSE f.ctc
-      tbl2 == TExpire(IF fire THEN {} ELSE f.live, nows)
-      es1 == IF f.es = 0 THEN 0 ELSE IF tbl2 = {} THEN 0
-             ELSE IF AllComplete(tbl2) THEN EnumNext(f.es, EnumComplete) ELSE EnumNext(f.es, EnumNotComplete)
-      cleared == f.es # 0 /\ tbl2 = {}
-      hto1 == IF cleared THEN 0 - 1 ELSE f.hto
-      bto1 == IF cleared THEN 0 - 1 ELSE f.bto
-      begun1 == IF cleared THEN 0 ELSE f.begun
-      due == es1 = 1 /\ hto1 >= 0 /\ now >= hto1
-      supp == due /\ f.lasttx > 0 /\ now - f.lasttx < MinGapMs
-      send == due /\ ~supp
-      ni0 == f.ni[2]
-      hto2 == IF supp THEN f.lasttx + MinGapMs ELSE IF send THEN now + Max(LoadInterval(ni0), MinGapMs) ELSE hto1
-      begun2 == IF send THEN 1 ELSE begun1
-      es2 == IF send THEN EnumNext(1, EnumHello) ELSE es1
-      blk == es1 = 1 /\ bto1 >= 0 /\ now >= bto1
-      ni3 == IF blk THEN NiNext(ni0, f.r[1], f.r[2], begun2 = 1) ELSE ni0
-  IN [ es |-> es2, live |-> tbl2, ctc |-> ctc1, sent |-> send,
-       hto |-> IF blk THEN now + LoadInterval(ni3) ELSE hto2,
-       bto |-> IF blk THEN now + BlockMs ELSE bto1,
-       lasttx |-> IF send THEN now ELSE f.lasttx,
-       ni |-> << 0, ni3 >>, r |-> IF blk THEN << 0, 0 >> ELSE f.r, begun |-> begun2,
-       inact |-> IF fire THEN 0 ELSE f.inact ]
 TickExactOK(ev) ==
   (full.ni[1] = 0 /\ ~full.clamped) =>
     LET w == TickExact(full, ev.now)
@@ -286,30 +245,13 @@ GlueRefines(ev) ==
 (* heard counts, and marks enumeration begun from the tenth on; a Discover starts enumeration from the initial    *)
 (* count with the first Hello one load interval away and the first block 300 ms long, or marks a running one as   *)
 (* begun) - then TickExact at the time parseFrame returns.                                                        *)
-RInc(r) == IF r[2] < 65535 THEN << r[1], r[2] + 1 >> ELSE << r[1] + 1, 0 >>
 GlueExactOK(ev) ==
   (KeyOf(ev.rs) >= 0 /\ full.ni[1] = 0 /\ ~full.clamped) =>
     LET nows0 == ev.now0 \div 1000
         k == KeyOf(ev.rs)
         stamped == {ev.live[i][6] : i \in {j \in 1..Len(ev.live) : ev.live[j][1] = k /\ ev.live[j][2] = ev.gen}}
         acking == stamped \cap {SessAcking, SessAckingChg} # {}
-        t1 == CASE ev.op = OpDiscover -> (IF acking THEN TComplete(TAdd(full.live, k, ev.gen, nows0, TableCap), k, ev.gen)
-                                         ELSE TAdd(full.live, k, ev.gen, nows0, TableCap))
-                [] ev.op = OpReset -> {}
-                [] OTHER -> full.live
-        t2 == IF full.ms # 0 /\ ev.ms = 0 THEN {} ELSE t1
-        r1 == IF ev.op = OpHello THEN RInc(full.r) ELSE full.r
-        band == IF ev.op = OpHello
-                THEN [full EXCEPT !.r = r1, !.begun = IF (r1[1] > 0 \/ r1[2] >= GAMMA) THEN 1 ELSE @, !.es = EnumNext(full.es, EnumHello)]
-                ELSE IF ev.op = OpDiscover
-                THEN (IF full.es = 0
-                      THEN [full EXCEPT !.ni = << 0, ALPHA >>, !.r = << 0, 0 >>, !.begun = 0, !.bto = ev.now0 + BlockMs,
-                                        !.hto = ev.now0 + LoadInterval(ALPHA), !.es = EnumNext(0, EnumNewSession)]
-                      ELSE [full EXCEPT !.begun = 1, !.es = EnumNext(full.es, EnumNewSession)])
-                ELSE full
-        pre == [band EXCEPT !.live = t2, !.inact = nows0 + 30,
-                            !.ctc = IF ev.op = OpCharge THEN (full.ctc + 1) % 256 ELSE full.ctc,
-                            !.cdl = IF ev.op = OpCharge THEN nows0 + 1 ELSE full.cdl]
+        pre == FrameExact(full, ev.op, k, ev.gen, acking, full.ms # 0 /\ ev.ms = 0, ev.now0)
         w == TickExact(pre, ev.now)
         g == FullOf(ev)
         ok == /\ g.es = w.es /\ g.live = w.live /\ g.ctc = w.ctc /\ (Len(ev.hellos) = 1) = w.sent /\ Len(ev.hellos) <= 1
